@@ -68,5 +68,6 @@ MANIFEST = {
             "the previous one and <= the source's last high watermark (a consequence of the routing invariant). C03_ack_monotone_bounded (coq/properties/C03.v) proves that every value the receiver sends upstream is >= the previous one (under the receiver invariant) and <= the last source high watermark; "
             "the model is tied to the code as for C01. Eventual completeness is checked as progress under the canonical fair schedule: histories end with completion rounds in virtual time and the "
             "source must have received exactly its final high watermark, on the real code and on the model.",
-    "note": "Liveness is decided under the canonical schedule only (not arbitrary fairness). Trusted as C01.",
+    "note": "Liveness is decided under the canonical schedule and, on the implementation only, under sustained load from a second source sharing a slowly drained target queue (not under arbitrary "
+            "fairness). Trusted as C01.",
 }
